@@ -304,10 +304,12 @@ func c10Run(rc *RunCtx, params any) {
 
 			return
 		}
-		for _, label := range []string{"EXTRACTOR-dtls_srtp", "EXPERIMENTAL-verif"} {
-			got, eerr := st.ExportKeyingMaterial(label, nil, 47)
-			if eerr != nil || !bytes.Equal(got, ref.Exporter12(label, 47)) {
-				rc.Violate("exporter-differs", "ExportKeyingMaterial(%q) = %x (err %v), RFC 5705 reference %x", label, got, eerr, ref.Exporter12(label, 47))
+		for li, label := range []string{"EXTRACTOR-dtls_srtp", "EXPERIMENTAL-verif", "EXPORTER_verif_label_of_some_length"} {
+			// lengths around the block sizes of P_SHA256 / P_SHA384
+			ln := []int{47, 1, 31, 32, 33, 48, 49, 64, 65, 96, 97, 255}[(len(p.Sizes)+li*5+p.Forge)%12]
+			got, eerr := st.ExportKeyingMaterial(label, nil, ln)
+			if eerr != nil || !bytes.Equal(got, ref.Exporter12(label, ln)) {
+				rc.Violate("exporter-differs", "ExportKeyingMaterial(%q, %d bytes) = %x (err %v), RFC 5705 reference %x", label, ln, got, eerr, ref.Exporter12(label, ln))
 
 				return
 			}
